@@ -150,11 +150,33 @@ impl<T: Into<TagValue>> From<Option<T>> for TagValue {
         }
     }
 }
+/// Writes `s` as a JSON string.
+///
+/// Escapes `"`, `\\` and the control characters U+0000 through U+001F.
+/// Writes all other characters as-is, as JSON allows.
+/// <https://datatracker.ietf.org/doc/html/rfc8259#section-7>
+///
+/// # Errors
+/// Returns `Err` when it fails to write to `f`.
+pub fn write_json_str(f: &mut Formatter<'_>, s: &str) -> Result<(), std::fmt::Error> {
+    use std::fmt::Write;
+    f.write_char('"')?;
+    for c in s.chars() {
+        match c {
+            '"' => f.write_str("\\\"")?,
+            '\\' => f.write_str("\\\\")?,
+            c if u32::from(c) < 0x20 => write!(f, "\\u{:04x}", u32::from(c))?,
+            c => f.write_char(c)?,
+        }
+    }
+    f.write_char('"')
+}
+
 impl Display for TagValue {
     fn fmt(&self, f: &mut Formatter<'_>) -> Result<(), std::fmt::Error> {
         match self {
-            TagValue::Str(x) => write!(f, "{x:?}"),
-            TagValue::String(x) => write!(f, "{x:?}"),
+            TagValue::Str(x) => write_json_str(f, x),
+            TagValue::String(x) => write_json_str(f, x),
             TagValue::Bool(x) => Display::fmt(&x, f),
             TagValue::I8(x) => Display::fmt(&x, f),
             TagValue::I16(x) => Display::fmt(&x, f),
@@ -167,6 +189,8 @@ impl Display for TagValue {
             TagValue::U64(x) => Display::fmt(&x, f),
             TagValue::U128(x) => Display::fmt(&x, f),
             TagValue::Usize(x) => Display::fmt(&x, f),
+            // JSON has no representation for NaN and infinities.
+            TagValue::Float(x) if x == "NaN" || x == "inf" || x == "-inf" => write!(f, "null"),
             TagValue::Float(x) => Display::fmt(&x, f),
             TagValue::Null => write!(f, "null"),
         }
